@@ -143,6 +143,7 @@ func rulesC03(c *Ctx) {
 	// and a change that drops the refresh no longer breaks the property — seed C03/5 is NEUTRALISED.)
 	c03EvictRepaired(c)
 	c03Round4(c)
+	pendingFallbackRule(c, "C03.sibling")
 	childNodeReadRule(c, "C03.evict")
 
 	// ---- (b) transaction-context discipline
@@ -232,6 +233,25 @@ func rulesC03(c *Ctx) {
 // overlayDirtyRules: the overlay's bookkeeping of which keys it shadows (shared by C02 and C03: applying the same
 // operations directly or batched in an overlay must end with the same contents, hence the same root).
 func overlayDirtyRules(c *Ctx, rule string) {
+	// RemoveExisting of a key the overlay does not shadow yet: whenever the inner tree has the key — its value is not
+	// nil, an *empty* value included — the key is recorded as dirty (round 5, seed C03/13: a length test let a present
+	// key with an empty value keep shining through and never be removed at Commit).
+	if fn := c.needFn(rule, "storage/mkvs.(*treeOverlay).RemoveExisting"); fn != nil {
+		var marks []ssa.Instruction
+		for _, b := range blocksIP(fn) {
+			for _, in := range b.Instrs {
+				if mu, ok := in.(*ssa.MapUpdate); ok && strings.HasSuffix(vstr(mu.Map), "param:o.dirty") {
+					marks = append(marks, in)
+				}
+			}
+		}
+		present := HeldEdges(fn, `^\*param:o\.inner\.Get\(.*\)#0 != nil$`)
+		var hit ssa.Instruction
+		if len(present) > 0 {
+			hit = Reach(fn, nil, present, func(i ssa.Instruction) bool { _, r := i.(*ssa.Return); return r }, NewCut().AddInstr(marks...))
+		}
+		c.Check(len(marks) > 0 && len(present) > 0 && hit == nil, rule, fname(fn)+":a key present in the inner tree is recorded as dirty", c.P.Pos(fn.Pos()), "every exit after the inner value was found non-nil has recorded the key as dirty", "RemoveExisting can return after finding the key in the inner tree (value not nil; it may be empty) without recording it as dirty, or no longer tests the inner value for nil: the key keeps shining through and is never removed")
+	}
 	// overlay bookkeeping: Insert and Remove always record the key as dirty; only Commit forgets dirtiness
 	for _, m := range []string{"Insert", "Remove"} {
 		fn := c.needFn(rule, "storage/mkvs.(*treeOverlay)."+m)
